@@ -510,7 +510,7 @@ impl Subject for Lifecycle {
         let waiting = w.hub.lock().unwrap().waiting;
         // the task can only make a step of its own if it was never polled, or if it waits
         // for the start signal and the state has changed since
-        let task_blocked = waiting.is_some() || s.stopped() || (w.task_polled && s.not_started());
+        let task_blocked = waiting.is_some() || (w.task_polled && s.not_started());
         if !task_blocked {
             ops.push(Op::RunTask);
         }
@@ -674,7 +674,7 @@ fn subjects(cli: &Cli) -> Vec<(Lifecycle, usize, u32)> {
     let all = vec![StartAndAwait, StopAndAwait, AwaitStop, AwaitStartOrStop, WhileStarted, WaitStoppingOrStopped];
     match cli.tier {
         Tier::Quick => vec![(Lifecycle { max_clients: 3, kinds: all, with_drop: true }, 9, 2)],
-        Tier::Thorough => vec![(Lifecycle { max_clients: 3, kinds: all, with_drop: true }, 13, 3)],
+        Tier::Thorough => vec![(Lifecycle { max_clients: 3, kinds: all, with_drop: true }, 14, 3)],
     }
 }
 
